@@ -381,3 +381,19 @@ macro_rules! harness_g {
         }
     };
 }
+
+/// Same as `harness!`, with `compute::linalg::solve` replaced by its contract (`stubs::solve_contract`).
+#[macro_export]
+macro_rules! harness_s {
+    (name=$name:ident, prop=$p:ident, mode=$m:ident, kind=$k:ident, tier=$t:ident, unwind=$u:expr, $body:block) => {
+        #[cfg_attr(kani, kani::proof)]
+        #[cfg_attr(kani, kani::unwind($u))]
+        #[cfg_attr(kani, kani::stub(compute::linalg::is_square, $crate::stubs::is_square))]
+        #[cfg_attr(kani, kani::stub(f64::abs, $crate::rt::fabs))]
+        #[cfg_attr(kani, kani::stub(compute::linalg::solve, $crate::stubs::solve_contract))]
+        pub fn $name() {
+            $body;
+            $crate::rt::finish();
+        }
+    };
+}
